@@ -66,6 +66,7 @@ def run(db, chk) -> None:
     _unshift(db, chk)
     _wrapper_rename(db, chk)
     _per_rank_wrappers(db, chk, m)
+    _copy_types(db, chk)
 
 
 def _queue(db, chk, m, TR):
@@ -286,13 +287,21 @@ def _unshift(db, chk):
     for has_name in (True, False):
         I = Interp(db, decide=lambda c: None)
         known = ["pid", "ts", "tid", "CNT"] + (["name", "id"] if has_name else [])
-        runs = I.explore("hta.common.trace:Trace.convert_time_series_to_events",
-                         lambda I: {"self": Obj("self", cls=(tm, "Trace")), "series": Frame(S, known=list(known)), "counter_name": "CN", "counter_col": "CNT"})
+        given = {}
+
+        def mkargs(I, known=known):
+            given["series"] = Frame(S, known=list(known))
+            return {"self": Obj("self", cls=(tm, "Trace")), "series": given["series"], "counter_name": "CN", "counter_col": "CNT"}
+        runs = I.explore("hta.common.trace:Trace.convert_time_series_to_events", mkargs)
         runs = [r for r in runs if r.raised is None and not isinstance(r.ret, list)]
         if len(runs) != 1:
             chk.ob(rule, f"convert_time_series_to_events (name column present={has_name}): one normal path", None, where, found=len(runs))
             continue
         r = runs[0]
+        muts_ = [e for e in r.events if e["kind"] == "frame-mutation" and e.get("base") == S and e.get("obj") == given["series"].obj]
+        chk.ob(rule, f"[name col={has_name}] the caller's series is not modified by the conversion (the shift is added on the private events frame)", not muts_, where,
+               found=[(e["what"], e.get("column"), e["line"]) for e in muts_] or "no store into the parameter", accepted="no store / in-place operation on `series`",
+               why="un-shifting the caller's frame makes a second conversion (or any later look at the series) shifted twice")
         cand = [v for v in r.env.values() if isinstance(v, Frame) and v.has("ph")]
         E = next((v for v in cand if v.base == S), None)
         removed = [e for e in r.events if e["kind"] in ("drop_duplicates", "filter", "dropna", "head", "take") and e["func"].endswith("convert_time_series_to_events")]
@@ -439,3 +448,24 @@ def _wrapper_rename(db, chk):
     chk.ob(rule, "generate_trace_with_counters analysed on the paths that decide both flags", True if done >= 4 else None, where, found=done, accepted=">= 4")
 
 
+
+
+def _copy_types(db, chk):
+    """the key of the bandwidth series: the copy type is the operation's own 11-character prefix ('Memcpy DtoH', 'Memcpy PtoP', ...), 'Memset' for memsets - decided by
+    evaluating get_memory_kernel_type on representative names (an enumerated table of 'known' directions would merge every other direction into one series)"""
+    rule = "C14.R3-bandwidth-terms"
+    ut = db.mod("hta.utils.utils")
+    fn = ut.functions.get("get_memory_kernel_type")
+    if fn is None:
+        chk.ob(rule, "get_memory_kernel_type found", None, "hta/utils/utils.py", found="absent")
+        return
+    cases = {"Memset (Device)": "Memset", "Memcpy DtoH (Device -> Pageable)": "Memcpy DtoH", "Memcpy HtoD (Pinned -> Device)": "Memcpy HtoD", "Memcpy DtoD (Device -> Device)": "Memcpy DtoD",
+             "Memcpy PtoP (Device -> Device)": "Memcpy PtoP", "Memcpy HtoH (Pageable -> Pageable)": "Memcpy HtoH", "void gemm_kernel()": "Memcpy Unknown"}
+    got = {}
+    for name in cases:
+        runs = [r for r in Interp(db).explore("hta.utils.utils:get_memory_kernel_type", lambda I, name=name: {"name": name}) if r.raised is None]
+        got[name] = runs[0].ret if len(runs) == 1 and isinstance(runs[0].ret, str) else None
+    verdict = None if any(v is None for v in got.values()) else got == cases
+    chk.ob(rule, "copy type = the operation's own type prefix (every direction its own series), 'Memset' for memsets, 'Memcpy Unknown' for anything else", verdict, ut.loc(fn),
+           found={k: v for k, v in got.items() if v != cases[k]} or "all representative names agree", accepted=cases,
+           why="a table of four known types reports peer-to-peer and host-to-host copies as one 'Memcpy Unknown' series: their bandwidths are added up under a wrong key")
